@@ -23,4 +23,12 @@ if [ "${1:-}" = "C16" ] || [ "${VERIF_RACE:-0}" = "1" ]; then
   fi
   export VERIFMON_RACE="$PWD/bin/verifmon-race"
 fi
+if [ "${1:-}" = "C20" ] || [ "${1:-}" = "replay" ]; then
+  # the experiment runner program of the repository root, built from the tree under check
+  if (cd "$VERIF_REPO" && go build -o "$VERIF_ROOT/bin/goneat-runner" . ) 2> .work/build-runner.log; then
+    export VERIFMON_RUNNER="$VERIF_ROOT/bin/goneat-runner"
+  else
+    cat .work/build-runner.log
+  fi
+fi
 exec ./bin/verifmon "$@"
